@@ -32,7 +32,7 @@ pub const EULER_ALL: [EulerRot; 24] = [
     EulerRot::XYZEx, EulerRot::XZYEx, EulerRot::ZYZEx, EulerRot::ZXZEx, EulerRot::YXYEx, EulerRot::YZYEx, EulerRot::XYXEx, EulerRot::XZXEx,
 ];
 
-pub const N_OPS: usize = 46;
+pub const N_OPS: usize = 52;
 pub const STEP_WORDS: usize = 12;
 pub const MAX_STEPS: usize = 12;
 
@@ -51,6 +51,9 @@ macro_rules! family {
                 pub m4: Vec<$M4>,
                 pub a3: Vec<$A3>,
                 pub a2: Vec<$A2>,
+                /// rigid transforms (rotation + translation only): the look_at / rotation constructors and their products
+                pub rig4: Vec<$M4>,
+                pub rig_a3: Vec<$A3>,
                 pub obs: Vec<u64>,
                 pub produced: usize,
                 pub consumer_steps_on_produced: usize,
@@ -129,6 +132,25 @@ macro_rules! family {
                         self.invalid_pool = Some(format!("{what} produced a rotation matrix whose axes are not normalized: {:?}", m));
                     }
                     self.rm3.push(m);
+                    self.produced += 1;
+                }
+                /// rigid 4x4: affine last row AND normalised axes (the check of from_mat4 / to_euler)
+                fn p_rig4(&mut self, what: &str, m: $M4) {
+                    let ok = m.x_axis.truncate().is_normalized() && m.y_axis.truncate().is_normalized() && m.z_axis.truncate().is_normalized();
+                    if !ok && self.invalid_pool.is_none() {
+                        self.invalid_pool = Some(format!("{what} produced a matrix whose rotation axes are not normalized (|x|^2,|y|^2,|z|^2 = {:?}, {:?}, {:?})", m.x_axis.truncate().length_squared(), m.y_axis.truncate().length_squared(), m.z_axis.truncate().length_squared()));
+                    }
+                    self.rig4.push(m);
+                    self.p_m4(what, m);
+                }
+                fn p_rig_a3(&mut self, what: &str, a: $A3) {
+                    self.oa3(a);
+                    let m = $M3::from(a.matrix3);
+                    if !(m.x_axis.is_normalized() && m.y_axis.is_normalized() && m.z_axis.is_normalized()) && self.invalid_pool.is_none() {
+                        self.invalid_pool = Some(format!("{what} produced an affine transform whose rotation axes are not normalized: {:?}", m));
+                    }
+                    self.rig_a3.push(a);
+                    self.a3.push(a);
                     self.produced += 1;
                 }
                 fn p_m4(&mut self, what: &str, m: $M4) {
@@ -218,6 +240,42 @@ macro_rules! family {
                 ($M4::from_rotation_translation(q, seed_v3(c)), false)
             }
 
+            /// clamp / clamp_length with bounds AT the documented limit (min == max in some lanes, min == 0,
+            /// min == max lengths): valid inputs that must not trip an assertion, for every float vector type
+            fn boundary_clamps(c: &mut Cur, s: &mut St) {
+                macro_rules! one {
+                    ($V:ident, $N:expr) => {{
+                        let mut v = [0.0 as F; $N];
+                        let mut lo = [0.0 as F; $N];
+                        let mut hi = [0.0 as F; $N];
+                        for i in 0..$N {
+                            v[i] = c.r(-4.0, 4.0) as F;
+                            lo[i] = c.r(-2.0, 2.0) as F;
+                            hi[i] = match c.idx(3) { 0 => lo[i], 1 => lo[i] + (c.r(0.0, 2.0) as F), _ => if lo[i] == 0.0 { 0.0 } else { lo[i].abs() } };
+                            if hi[i] < lo[i] { hi[i] = lo[i]; }
+                        }
+                        let (v, lo, hi) = ($V::from_array(v), $V::from_array(lo), $V::from_array(hi));
+                        for x in v.clamp(lo, hi).to_array() { s.obs.push(bits(x)); }
+                        for x in v.clamp(lo, lo).to_array() { s.obs.push(bits(x)); }
+                        let l = c.r(0.0, 3.0) as F;
+                        for x in v.clamp_length(l, l).to_array() { s.obs.push(bits(x)); }
+                        for x in v.clamp_length(0.0, l).to_array() { s.obs.push(bits(x)); }
+                        for x in v.clamp_length_max(0.0).to_array() { s.obs.push(bits(x)); }
+                        for x in v.clamp_length_min(0.0).to_array() { s.obs.push(bits(x)); }
+                        let n = v.normalize_or($V::ONE.normalize());
+                        if !n.is_normalized() && s.invalid_pool.is_none() { s.invalid_pool = Some(format!("{}::normalize_or produced {:?} which is not normalized", stringify!($V), n)); }
+                        for x in v.project_onto_normalized(n).to_array() { s.obs.push(bits(x)); }
+                        for x in v.reject_from_normalized(n).to_array() { s.obs.push(bits(x)); }
+                    }};
+                }
+                one!($V2, 2);
+                one!($V3, 3);
+                one!($V4, 4);
+                if $f32only {
+                    f32only_clamps(c, &mut s.obs);
+                }
+            }
+
             /// one step; returns whether it was a consumer step fed by a produced value
             pub fn step(op: usize, c: &mut Cur, s: &mut St) -> &'static str {
                 match op {
@@ -252,24 +310,30 @@ macro_rules! family {
                     25 => { let o = EULER_ALL[c.idx(24)]; s.p_rm3("Mat3::from_euler", $M3::from_euler(o, angle(c), angle(c), angle(c))); "Mat3::from_euler" }
                     26 => { if let (Some(a), Some(b)) = (pick(c, &s.rm3), pick(c, &s.rm3)) { s.p_rm3("Mat3 * Mat3 (rotations)", a * b); s.p_rm3("Mat3::transpose (rotation)", a.transpose()); s.consumer_steps_on_produced += 1; } "Mat3 mul" }
                     27 => { let (q, fed) = uq(c, s); let m = $M4::from_scale_rotation_translation(seed_scale(c), q, seed_v3(c) * 10.0); s.p_m4("Mat4::from_scale_rotation_translation", m); if fed { s.consumer_steps_on_produced += 1; } "Mat4::from_srt" }
-                    28 => { let (q, fed) = uq(c, s); s.p_m4("Mat4::from_rotation_translation", $M4::from_rotation_translation(q, seed_v3(c) * 10.0)); s.p_m4("Mat4::from_quat", $M4::from_quat(q)); if fed { s.consumer_steps_on_produced += 1; } "Mat4::from_rt" }
-                    29 => { let (d, fed) = uv3(c, s); let up0 = seed_v3(c); let up = (up0 - d * up0.dot(d) * (c.r(0.0, 0.9) as F)).normalize(); if d.cross(up).length_squared() > 1e-4 { let eye = seed_v3(c) * 10.0; s.p_m4("Mat4::look_to_rh", $M4::look_to_rh(eye, d, up)); s.p_m4("Mat4::look_to_lh", $M4::look_to_lh(eye, d, up)); s.p_m4("Mat4::look_at_rh", $M4::look_at_rh(eye, eye + d * 3.0, up)); let a = $A3::look_to_rh(eye, d, up); s.oa3(a); s.a3.push(a); if fed { s.consumer_steps_on_produced += 1; } } "look_to" }
+                    28 => { let (q, fed) = uq(c, s); s.p_rig4("Mat4::from_rotation_translation", $M4::from_rotation_translation(q, seed_v3(c) * 10.0)); s.p_rig4("Mat4::from_quat", $M4::from_quat(q)); if fed { s.consumer_steps_on_produced += 1; } "Mat4::from_rt" }
+                    29 => { let (d, fed) = uv3(c, s); let up0 = seed_v3(c); let up = (up0 - d * up0.dot(d) * (c.r(0.0, 0.9) as F)).normalize(); if d.cross(up).length_squared() > 1e-4 { let eye = seed_v3(c) * 10.0; s.p_rig4("Mat4::look_to_rh", $M4::look_to_rh(eye, d, up)); s.p_rig4("Mat4::look_to_lh", $M4::look_to_lh(eye, d, up)); s.p_rig4("Mat4::look_at_rh", $M4::look_at_rh(eye, eye + d * 3.0, up)); s.p_rig4("Mat4::look_at_lh", $M4::look_at_lh(eye, eye + d * 0.5, up)); s.p_rig_a3("Affine3::look_to_rh", $A3::look_to_rh(eye, d, up)); s.p_rig_a3("Affine3::look_to_lh", $A3::look_to_lh(eye, d, up)); s.p_rig_a3("Affine3::look_at_rh", $A3::look_at_rh(eye, eye + d * 2.0, up)); s.p_rig_a3("Affine3::look_at_lh", $A3::look_at_lh(eye, eye + d * 2.0, up)); s.p_rm3("Mat3::look_to_rh", $M3::look_to_rh(d, up)); s.p_rm3("Mat3::look_to_lh", $M3::look_to_lh(d, up)); s.p_rm3("Mat3::look_at_rh", $M3::look_at_rh(eye, eye + d * 2.0, up)); if fed { s.consumer_steps_on_produced += 1; } } "look_to" }
                     30 => { let (a, f1) = m4(c, s); let (b, f2) = m4(c, s); s.p_m4("Mat4 * Mat4 (affine)", a * b); if f1 || f2 { s.consumer_steps_on_produced += 1; } "Mat4 mul" }
-                    31 => { let (a, fed) = uv3(c, s); s.p_m4("Mat4::from_axis_angle", $M4::from_axis_angle(a, angle(c))); let o = EULER_ALL[c.idx(24)]; s.p_m4("Mat4::from_euler", $M4::from_euler(o, angle(c), angle(c), angle(c))); s.p_m4("Mat4::from_translation", $M4::from_translation(seed_v3(c))); s.p_m4("Mat4::from_scale", $M4::from_scale(seed_scale(c))); if fed { s.consumer_steps_on_produced += 1; } "Mat4 ctors" }
-                    32 => { let (q, fed) = uq(c, s); let a = $A3::from_scale_rotation_translation(seed_scale(c), q, seed_v3(c) * 10.0); s.oa3(a); s.a3.push(a); let b = $A3::from_rotation_translation(q, seed_v3(c)); s.oa3(b); s.a3.push(b); let m = $M4::from(a); s.p_m4("Mat4::from(Affine3A)", m); if fed { s.consumer_steps_on_produced += 1; } "Affine3 ctors" }
+                    31 => { let (a, fed) = uv3(c, s); s.p_rig4("Mat4::from_axis_angle", $M4::from_axis_angle(a, angle(c))); let o = EULER_ALL[c.idx(24)]; s.p_rig4("Mat4::from_euler", $M4::from_euler(o, angle(c), angle(c), angle(c))); s.p_rig4("Mat4::from_rotation_x", $M4::from_rotation_x(angle(c))); s.p_rig4("Mat4::from_rotation_y", $M4::from_rotation_y(angle(c))); s.p_rig4("Mat4::from_rotation_z", $M4::from_rotation_z(angle(c))); s.p_m4("Mat4::from_translation", $M4::from_translation(seed_v3(c))); s.p_m4("Mat4::from_scale", $M4::from_scale(seed_scale(c))); if fed { s.consumer_steps_on_produced += 1; } "Mat4 ctors" }
+                    32 => { let (q, fed) = uq(c, s); let a = $A3::from_scale_rotation_translation(seed_scale(c), q, seed_v3(c) * 10.0); s.oa3(a); s.a3.push(a); let b = $A3::from_rotation_translation(q, seed_v3(c)); s.p_rig_a3("Affine3::from_rotation_translation", b); s.p_rig_a3("Affine3::from_quat", $A3::from_quat(q)); let m = $M4::from(a); s.p_m4("Mat4::from(Affine3A)", m); if fed { s.consumer_steps_on_produced += 1; } "Affine3 ctors" }
                     // ---------------- consumers
                     33 => { let (n, f1) = uv3(c, s); let v = seed_v3(c); s.o3(v.project_onto_normalized(n)); s.o3(v.reject_from_normalized(n)); s.o3(v.reflect(n)); s.o3(v.project_onto(seed_v3(c))); if f1 { s.consumer_steps_on_produced += 1; } "project/reflect" }
                     34 => { let (i, f1) = uv3(c, s); let (n, f2) = uv3(c, s); s.o3(i.refract(n, c.r(0.2, 5.0) as F)); s.of(i.angle_between(n)); if f1 || f2 { s.consumer_steps_on_produced += 1; } "refract" }
                     35 => { let (q, f1) = uq(c, s); let (p, f2) = uq(c, s); s.of(q.angle_between(p)); let (ax, an) = q.to_axis_angle(); s.o3(ax); s.of(an); s.o3(q.to_scaled_axis()); let e = q.to_euler(EULER_ALL[c.idx(24)]); s.of(e.0); s.of(e.1); s.of(e.2); s.o3(q * seed_v3(c)); if f1 || f2 { s.consumer_steps_on_produced += 1; } "quat consumers" }
                     36 => { if let Some(m) = pick(c, &s.rm3) { let e = m.to_euler(EULER_ALL[c.idx(24)]); s.of(e.0); s.of(e.1); s.of(e.2); s.om3(m.inverse()); s.o3(m * seed_v3(c)); s.consumer_steps_on_produced += 1; } "Mat3 consumers" }
                     37 => { let (m, fed) = m4(c, s); let v = seed_v3(c); s.o3(m.transform_point3(v)); s.o3(m.transform_vector3(v)); s.o3(m.project_point3(v)); if fed { s.consumer_steps_on_produced += 1; } "Mat4 transform" }
-                    38 => { let (m, fed) = m4(c, s); let (sc, r, t) = m.to_scale_rotation_translation(); s.o3(sc); s.oq(r); s.o3(t); if r.is_normalized() { s.uq.push(r); } if fed { s.consumer_steps_on_produced += 1; } "Mat4::to_srt" }
+                    38 => { let (m, fed) = m4(c, s); let (sc, r, t) = m.to_scale_rotation_translation(); s.o3(sc); s.oq(r); s.o3(t); /* the pool may hold sheared products: r is observed but never pooled (shear-free inputs: ops 48, 49) */ if fed { s.consumer_steps_on_produced += 1; } "Mat4::to_srt" }
                     39 => { let (m, fed) = m4(c, s); let inv = m.inverse(); s.om4(inv); if fed { s.consumer_steps_on_produced += 1; } "Mat4::inverse" }
                     40 => { if let Some(a) = pick(c, &s.a3) { let v = seed_v3(c); s.o3(a.transform_point3(v)); s.o3(a.transform_vector3(v)); let (sc, r, t) = a.to_scale_rotation_translation(); s.o3(sc); s.oq(r); s.o3(t); s.oa3(a.inverse()); if let Some(b) = pick(c, &s.a3) { let p = a * b; s.oa3(p); s.a3.push(p); } s.consumer_steps_on_produced += 1; } "Affine3 consumers" }
                     41 => { let v = seed_v3(c); let lo = seed_v3(c); let hi = lo + $V3::new(c.r(0.0, 3.0) as F, c.r(0.0, 3.0) as F, c.r(0.0, 3.0) as F); s.o3(v.clamp(lo, hi)); let mn = c.r(0.0, 2.0) as F; let mx = mn + c.r(0.0, 2.0) as F; s.o3(v.clamp_length(mn, mx)); s.o3(v.clamp_length_max(mx)); s.o3(v.clamp_length_min(mn)); s.o3(v.clamp_length(0.0, 0.0)); "clamp" }
                     42 => { let a = $A2::from_scale_angle_translation(seed_v2(c), angle(c), seed_v2(c)); s.oa2(a); s.a2.push(a); let (sc, an, t) = a.to_scale_angle_translation(); s.o2(sc); s.of(an); s.o2(t); s.oa2(a.inverse()); s.o2(a.transform_point2(seed_v2(c))); let m = $M3::from_scale_angle_translation(seed_v2(c), angle(c), seed_v2(c)); s.o2(m.transform_point2(seed_v2(c))); s.o2(m.transform_vector2(seed_v2(c))); "2d" }
                     43 => { if let Some(q) = pick(c, &s.uq) { for _ in 0..8 { if let Some(p) = pick(c, &s.uq) { let r = q * p; s.p_uq("long product of unit quaternions", r); } } s.consumer_steps_on_produced += 1; } "long product" }
-                    44 => { if $f32only { f32only_step(c, s); } "f32-only (Vec3A / Mat3A / Affine3A)" }
+                    44 => { if let Some(m) = pick(c, &s.rig4) { s.p_uq("Quat::from_mat4(rigid)", $Q::from_mat4(&m)); let e = m.to_euler(EULER_ALL[c.idx(24)]); s.of(e.0); s.of(e.1); s.of(e.2); let m3 = $M3::from_mat4(m); s.p_rm3("Mat3::from_mat4(rigid)", m3); s.p_uq("Quat::from_mat3(Mat3::from_mat4(rigid))", $Q::from_mat3(&m3)); let v = seed_v3(c); s.o3(m.transform_point3(v)); s.o3(m.transform_vector3(v)); s.consumer_steps_on_produced += 1; } "rigid Mat4 consumers" }
+                    45 => { if let Some(a) = pick(c, &s.rig_a3) { s.p_uq("Quat::from_affine3(rigid)", $Q::from_affine3(&a)); let m = $M4::from(a); s.p_rig4("Mat4::from(rigid Affine3)", m); let (sc, r, t) = a.to_scale_rotation_translation(); s.o3(sc); s.p_uq("Affine3::to_scale_rotation_translation(rigid).rotation", r); s.o3(t); s.consumer_steps_on_produced += 1; } "rigid Affine3 consumers" }
+                    46 => { if let (Some(a), Some(b)) = (pick(c, &s.rig4), pick(c, &s.rig4)) { s.p_rig4("Mat4 * Mat4 (rigid)", a * b); s.consumer_steps_on_produced += 1; } if let (Some(a), Some(b)) = (pick(c, &s.rig_a3), pick(c, &s.rig_a3)) { s.p_rig_a3("Affine3 * Affine3 (rigid)", a * b); } "rigid products" }
+                    47 => { boundary_clamps(c, s); "clamp at the precondition boundary (all vector types)" }
+                    48 => { if let Some(m) = pick(c, &s.rig4) { let (sc, r, t) = m.to_scale_rotation_translation(); s.o3(sc); s.p_uq("Mat4::to_scale_rotation_translation(rigid).rotation", r); s.o3(t); s.consumer_steps_on_produced += 1; } "rigid to_srt" }
+                    49 => { let (q, fed) = uq(c, s); let sc = seed_scale(c); let t = seed_v3(c) * 10.0; let m = $M4::from_scale_rotation_translation(sc, q, t); let (s2, r2, t2) = m.to_scale_rotation_translation(); s.o3(s2); s.p_uq("to_scale_rotation_translation(TRS).rotation", r2); s.o3(t2); let a = $A3::from_scale_rotation_translation(sc, q, t); let (s3, r3, t3) = a.to_scale_rotation_translation(); s.o3(s3); s.p_uq("Affine3::to_scale_rotation_translation(TRS).rotation", r3); s.o3(t3); if fed { s.consumer_steps_on_produced += 1; } "TRS decompose" }
+                    50 => { if $f32only { f32only_step(c, s); } "f32-only (Vec3A / Mat3A / Affine3A)" }
                     _ => { let (q, fed) = uq(c, s); if let Some(a) = pick(c, &s.a3) { let _ = a; } let m = $M3::from_quat(q); s.oq($Q::from_mat3(&m)); let m4_ = $M4::from_quat(q); s.oq($Q::from_mat4(&m4_)); if fed { s.consumer_steps_on_produced += 1; } "quat<->mat round trip" }
                 }
             }
@@ -407,6 +471,36 @@ mod f32only_impl {
         s.consumer_steps_on_produced += 1;
     }
 }
+/// Vec3A has its own implementation in every backend: same boundary clamps and unit-vector consumers
+#[allow(dead_code)]
+fn f32only_clamps(c: &mut Cur, obs: &mut Vec<u64>) {
+    let mut v = [0.0f32; 3];
+    let mut lo = [0.0f32; 3];
+    let mut hi = [0.0f32; 3];
+    for i in 0..3 {
+        v[i] = c.r(-4.0, 4.0) as f32;
+        lo[i] = c.r(-2.0, 2.0) as f32;
+        hi[i] = match c.idx(3) { 0 => lo[i], 1 => lo[i] + (c.r(0.0, 2.0) as f32), _ => lo[i].abs() };
+        if hi[i] < lo[i] { hi[i] = lo[i]; }
+    }
+    let (v, lo, hi) = (Vec3A::from_array(v), Vec3A::from_array(lo), Vec3A::from_array(hi));
+    let mut put = |x: Vec3A| for e in x.to_array() { obs.push(e.to_bits() as u64) };
+    put(v.clamp(lo, hi));
+    put(v.clamp(lo, lo));
+    put(v.min(lo).clamp(v.min(lo), v.max(lo)));
+    let l = c.r(0.0, 3.0) as f32;
+    put(v.clamp_length(l, l));
+    put(v.clamp_length(0.0, l));
+    put(v.clamp_length_max(0.0));
+    put(v.clamp_length_min(0.0));
+    let n = v.normalize_or(Vec3A::X);
+    put(v.project_onto_normalized(n));
+    put(v.reject_from_normalized(n));
+    put(v.reflect(n));
+    put(n.refract(n.any_orthonormal_vector(), 1.3));
+    put(n.any_orthonormal_vector());
+}
+
 #[allow(dead_code)]
 fn f32only_step<S: 'static>(c: &mut Cur, s: &mut S) {
     // dispatch on the concrete state type (the f64 family never calls this with $f32only = true)
